@@ -61,6 +61,12 @@ def run(tier, replay=None):
     # parser tables: the state after a key / variant / attribute does not depend on its value; u and t in either order (single dispatcher state)
     for which in ('core', 'dispatch', 'unicode', 'transform', 'private'):
         parserules.check(prog, rep, which)
+    # "no other code looks at separators / case": every string entry point is split(whole input) -> core parser (-> extension parser) and nothing else
+    from . import c13, c02, c04
+    c13.wiring(prog, rep)
+    c02.fromstr_delegation(prog, rep, LI, 'LanguageIdentifier')
+    c02.fromstr_delegation(prog, rep, LO, 'Locale')
+    c04.canonicalize_shape(prog, rep)
     # "parse to equal values with identical to_string()": equality is the derived structural one and the printers are functions of the fields only
     from . import c12, emitrules
     c12.derived_impls(prog, rep)
